@@ -19,6 +19,9 @@ RULE = (
     "unravellings of the same instrument). Non-trivial = a non-projective set was measured; distinct = (entry, "
     "storages, representations, #targets, flags, layout hash, script)."
 )
+from pw_verif.props._machine import HISTORY_NOTE, SURVIVOR_NOTE  # noqa: E402,F401
+
+RULE += SURVIVOR_NOTE + HISTORY_NOTE
 ASSUMPTIONS = ["reference self-tests passed", "operators sized from the targets' public dimensions (joint dimension <= 24)",
                "what happens to envelope partners is not fixed by the statement: only 'non-destructive destroys nothing' and 'bystanders are never destroyed' are enforced"]
 
